@@ -40,10 +40,17 @@ package event
 //@   nopanic
 //@   ensures result != nil && specEventInv(result) && len(result.subscribers) == 0
 
-// Fire does not change the subscriber list (each listener is started in its own
-// goroutine; the goroutines themselves are not executed by the verifier).
+// Fire does not change the subscriber list and starts every subscriber, in its
+// own goroutine, with the given data (gocalls / golastarg are the verifier's
+// ghost record of `go f(x)` statements; the goroutines themselves are not executed).
 //@ props C19 C16
 //@ func Event.Fire
 //@   nopanic
+//@   assigns ghost:gocount ghost:golastarg
 //@   ensures len(e.subscribers) == old(len(e.subscribers)) && e.nextID == old(e.nextID)
 //@   ensures forall k int :: 0 <= k && k < len(e.subscribers) ==> e.subscribers[k].id == old(e.subscribers[k].id) && e.subscribers[k].fn == old(e.subscribers[k].fn)
+//@   ensures [C19] forall k int :: 0 <= k && k < len(e.subscribers) ==> gocalls(e.subscribers[k].fn) > old(gocalls(e.subscribers[k].fn)) && golastarg(e.subscribers[k].fn) == data
+//@   ensures forall f int :: gocalls(f) >= old(gocalls(f))
+//@   loop 1 invariant rangeidx <= len(e.subscribers)
+//@   loop 1 invariant forall k int :: 0 <= k && k < rangeidx ==> gocalls(e.subscribers[k].fn) > old(gocalls(e.subscribers[k].fn)) && golastarg(e.subscribers[k].fn) == data
+//@   loop 1 invariant forall f int :: gocalls(f) >= old(gocalls(f))
